@@ -271,8 +271,11 @@ def build(spec: Dict) -> Tuple[Dict, Dict]:
                 elif t == "ransom":
                     apps.append({"type": "ransomware-script", "options": {"server_ip": target_db}})
                 elif t == "dos":
-                    apps.append({"type": "dos-bot", "options": {"target_ip_address": target_db, "payload": "SPOOF DATA",
-                                                                "port_scan_p_of_success": 0.8}})
+                    o = {"target_ip_address": target_db, "payload": "SPOOF DATA", "port_scan_p_of_success": 0.8}
+                    if spec.get("dos_opts"):
+                        # C03 'multibot' cases: several fully configured repeating bots, each with its own trial odds
+                        o.update(spec["dos_opts"][len(hosts_meta) % len(spec["dos_opts"])])
+                    apps.append({"type": "dos-bot", "options": o})
                 elif t == "c2b":
                     apps.append({"type": "c2-beacon", "options": {"c2_server_ip_address": c2s_ip or all_host_ips[0],
                                                                   "keep_alive_frequency": 3}})
